@@ -24,19 +24,38 @@ TRANSC = set(f.name() for f in UF.values())
 USED_AXIOMS = set()
 
 
-def _apps(e, acc, seen):
-    """collect applications of the transcendental UFs in e"""
+def _has_var(e, memo):
+    k = e.get_id()
+    if k in memo:
+        return memo[k]
+    if z3.is_var(e):
+        r = True
+    elif z3.is_quantifier(e):
+        r = True          # conservatively: a nested binder is not looked into
+    else:
+        r = any(_has_var(c, memo) for c in e.children())
+    memo[k] = r
+    return r
+
+
+def _apps(e, acc, seen, _vmemo=None):
+    """collect applications of the transcendental UFs in e.  Quantifier bodies are entered, but only GROUND
+    applications (no bound variable below them) are collected there: terms with bound variables get their analytic
+    instances from the contract axioms that introduce them (contracts.ensure_axiom)."""
     if e.get_id() in seen:
         return
     seen.add(e.get_id())
+    if _vmemo is None:
+        _vmemo = {}
+    if z3.is_quantifier(e):
+        _apps(e.body(), acc, seen, _vmemo)
+        return
     if z3.is_app(e):
         d = e.decl()
-        if d.kind() == z3.Z3_OP_UNINTERPRETED and d.name() in TRANSC and e.num_args() > 0:
+        if d.kind() == z3.Z3_OP_UNINTERPRETED and d.name() in TRANSC and e.num_args() > 0 and not _has_var(e, _vmemo):
             acc.setdefault(d.name()[3:], {})[e.get_id()] = e
         for c in e.children():
-            _apps(c, acc, seen)
-    # quantifier bodies are not entered: their terms contain bound variables; the contract
-    # axioms conjoin the analytic instances for their own body (contracts.ensure_axiom)
+            _apps(c, acc, seen, _vmemo)
 
 
 def _mentions_pi(es):
